@@ -15,6 +15,18 @@ CHECKS = {
              "assumed within 1e-12 relative (checked on every sampled case, not proved).",
         technique="Lean 4 proof over translator-generated tables + differential correspondence",
         design="§6 C06"),
+    "C19": dict(
+        text="Lean theorems about a line-by-line model of Reaction._fromstring / to_string / ssto / psto / dsto / order / "
+             "k*_units_dimensions / process_unitvar_input / split / equilibrium_constant / RDNetwork._assert_validity: "
+             "parsing a rendered equation (any spacing, any labels allowed by the rules) gives the written coefficients with "
+             "repeats summed; dsto = psto - ssto; order = sum of coefficients; print-parse round trip; k dimension = "
+             "(3n-3, -1, 1-n); bare numbers get it, other dimensions are rejected; split; K = kf/kr in SI; network "
+             "refusals as an iff. Tie: translator group Network (formulas + source constants) + correspondence "
+             "(op reaction / network) + AST oracle on the real code.",
+        note="Lean kernel + {propext, Classical.choice, Quot.sound}; translator; correspondence harness; CPython "
+             "str.split/strip/int/str(int) modelled explicitly (ASCII blanks and digits) and correspondence-tested.",
+        technique="Lean 4 proof over a hand-written parser model + translator-generated formulas + differential correspondence",
+        design="§6 C19"),
 }
 
 ALL = ["C%02d" % i for i in range(1, 21)]
